@@ -3,7 +3,7 @@
 From Coq Require Import String ZArith NArith List Bool Arith.
 From Coq Require Import Floats.SpecFloat.
 From Cfi Require Import Glue.Sx Py.PyStr Py.PyNum Py.PyBits Py.PyDate Model.Field Model.Line.
-From Cfi Require Import Proofs.FieldProofs Proofs.NumText Proofs.DateProofs Proofs.LineProofs.
+From Cfi Require Import Proofs.FieldProofs Proofs.NumText Proofs.DateProofs Proofs.LineProofs Proofs.FloatSci.
 Import ListNotations.
 
 (* [reread f v] (Proofs/LineProofs.v) = the reference interpretation of the rendering of v, i.e. what
@@ -76,6 +76,34 @@ Proof.
 Qed.
 Print Assumptions C01_float_half_unit.
 
+(* floats, E notation: the mantissa has exactly declared-decimals+1 significant digits n, the exponent is e10, and
+   n * 10^(e10 - dd) is within half a unit of the last mantissa digit of the value, exactly; when the (untruncated)
+   text fits the field it reads back as the double nearest to that decimal *)
+Theorem C01_float_sci_shape : forall up s m e d, exists n e10,
+  fmtE up (S754_finite s m e) d = sci_text up s n d e10 /\
+  (10 ^ Z.of_nat d <= n < 10 ^ (Z.of_nat d + 1))%Z /\
+  let (num, den) := scaled m e (Z.of_nat d - e10) in (2 * Z.abs (n * den - num) <= den)%Z.
+Proof. exact fmtE_shape. Qed.
+Print Assumptions C01_float_sci_shape.
+
+Theorem C01_float_sci : forall f dd up sep s m e, kind f = KFloat dd true up sep -> (sep = [DOT] \/ sep = [44%N]) ->
+  fits f (VFloat (S754_finite s m e)) = true ->
+  exists n e10, (10 ^ Z.of_nat dd <= n < 10 ^ (Z.of_nat dd + 1))%Z /\
+    float_text true (size f) dd true up sep (S754_finite s m e) = replace [DOT] sep (sci_text up s n dd e10) /\
+    reread f (VFloat (S754_finite s m e)) = VFloat (sf_of_dec s n (e10 - Z.of_nat dd)).
+Proof. exact reread_float_sci. Qed.
+Print Assumptions C01_float_sci.
+
+(* zero (either sign) reads back as itself in both notations *)
+Theorem C01_float_zero : forall f dd sci up sep s, kind f = KFloat dd sci up sep -> (sep = [DOT] \/ sep = [44%N]) ->
+  fits f (VFloat (S754_zero s)) = true -> reread f (VFloat (S754_zero s)) = VFloat (S754_zero s).
+Proof.
+  intros f dd sci up sep s K Hs Hf. destruct sci.
+  - exact (reread_float_sci_zero f dd up sep s K Hs Hf).
+  - exact (reread_float_fixed_zero f dd up sep s K Hs).
+Qed.
+Print Assumptions C01_float_zero.
+
 (* dialect: the only decimal mark a rendering can contain is the configured separator *)
 Theorem C01_float_dialect : forall w dd up sep s m e, (sep = [DOT] \/ sep = [44%N]) ->
   let other := if N.eqb (hd 0%N sep) DOT then 44%N else DOT in
@@ -105,10 +133,10 @@ Theorem C01_stable_fields :
      strip is_space (strftime fmt d) = strftime fmt d -> stable_field f (VDate d)).
 Proof. split; [exact stable_int|split; [exact stable_lit|split; [exact stable_missing|exact stable_date]]]. Qed.
 Print Assumptions C01_stable_fields.
-(* ... for floats, [stable_field] says that the double nearest to the emitted decimal renders to the same decimal
-   again. This needs the nearest-point property of IEEE rounding for the concrete [rn64]; it is NOT proved here
-   (C01_stable_line is therefore partial for float fields: the hypothesis [stable_field] stays explicit) and is
-   checked for every generated float by the correspondence check and the direct oracle instead. *)
+(* ... for floats in F notation [stable_field] is proved in Properties/C01real.v (C01_stable_float): it needs the
+   nearest-point property of IEEE rounding for the concrete [rn64], proved with Flocq, and therefore depends on the
+   standard library's real-number axioms -- which is why it lives in its own file. For E notation text stability is
+   checked by the correspondence check and the direct oracle only. *)
 
 (* setters: the values read and the text written depend only on the final field objects, delimiter and storage,
    not on how they were installed (constructor or setters) nor on what the slots held *)
